@@ -108,11 +108,18 @@ def pReq : P Req := do
   let rs ← list pResp
   pure ⟨d, rs⟩
 
+/-- Does the request end as a 413?  Rejected up front, or the handler hands back the first over-limit error one of
+    its reads reported (the handlers of the correspondence run do exactly that, whatever they read afterwards);
+    echo's error handler turns that error into the response status. -/
+def answered413 : Outcome → Bool
+  | .rejected => true
+  | .ran seen => seen.any (fun o => o.err == .tooLarge)
+
 def encOutcome : Outcome → List String
   | .rejected => ["0"]
-  | .ran seen => "1" :: encList encResp seen
+  | .ran seen => "1" :: (encList encResp seen ++ [if answered413 (.ran seen) then "1" else "0"])
 
-/-- line: `L nreq ((0 | 1 B) declared n (data err)*)*`  →  `nreq (0 | 1 n (data err)*)*`;
+/-- line: `L nreq ((0 | 1 B) declared n (data err)*)*`  →  `nreq (0 | 1 n (data err)* is413)*`;
     the requests go through one application one after the other (`1 B`: through a route with a
     second instance of limit `B`) -/
 def runLine (line : String) : String :=
